@@ -286,7 +286,7 @@ package pfcp
 //@   reveal sessOK
 //@   reveal nodeInv allSessOK dpLive lnodeWF
 //@   uses ok frameok for node hiding sessOK
-//@   serves C01 C05 C07 C11 C12
+//@   serves C01 C05 C07 C11 C12 C10
 //@   loop range(req.ChildIEs):
 //@     modifies s.URRIDs[_].DURAT, s.URRIDs[_].VOLUM, s.URRIDs[_].EVENT, s.URRIDs[_].MBQE, s.URRIDs[_].INAM, s.URRIDs[_].RADI, s.URRIDs[_].ISTM, s.URRIDs[_].MNOP
 //@     invariant true
@@ -309,7 +309,7 @@ package pfcp
 //@   reveal sessOK
 //@   reveal nodeInv allSessOK dpLive lnodeWF
 //@   uses ok frameok for node hiding sessOK
-//@   serves C01 C05 C07 C12 C11
+//@   serves C01 C05 C07 C12 C11 C10
 //@   loop range(usars):
 //@     modifies usars[_]
 //@     invariant [flagged] forall j int :: 0 <= j && j < idx ==> usars[j].USARTrigger.Flags & report.USAR_TRIG_TERMR != 0
@@ -328,7 +328,7 @@ package pfcp
 //@   reveal sessOK
 //@   reveal nodeInv allSessOK dpLive lnodeWF
 //@   uses ok frameok for node hiding sessOK
-//@   serves C01 C05 C07 C12 C11
+//@   serves C01 C05 C07 C12 C11 C10
 //@   loop range(usars):
 //@     modifies usars[_]
 //@     invariant [flagged] forall j int :: 0 <= j && j < idx ==> usars[j].USARTrigger.Flags & report.USAR_TRIG_IMMER != 0
@@ -350,7 +350,7 @@ package pfcp
 //@   reveal sessOK
 //@   reveal nodeInv allSessOK dpLive lnodeWF
 //@   uses ok frameok for node hiding sessOK
-//@   serves C01 C05 C07 C12 C11
+//@   serves C01 C05 C07 C12 C11 C10
 //@   loop range(usars):
 //@     modifies usars[_]
 //@     invariant [flagged] forall j int :: 0 <= j && j < idx ==> usars[j].USARTrigger.Flags & report.USAR_TRIG_TERMR != 0
@@ -405,7 +405,7 @@ package pfcp
 //@   reveal sessOK
 //@   reveal nodeInv allSessOK dpLive lnodeWF
 //@   uses ok frameok for node hiding sessOK
-//@   serves C01 C05 C07 C12 C11
+//@   serves C01 C05 C07 C12 C11 C10
 //@   loop range(ies):
 //@     modifies newUrrids[_]
 //@     invariant true
@@ -438,7 +438,7 @@ package pfcp
 //@   reveal sessOK
 //@   reveal nodeInv allSessOK dpLive lnodeWF
 //@   uses ok frameok for node hiding sessOK
-//@   serves C01 C05 C07 C12 C11
+//@   serves C01 C05 C07 C12 C11 C10
 //@   loop range(pdrInfo.RelatedURRIDs):
 //@     modifies s.URRIDs[_].refPdrNum
 //@     invariant [termr] forall j int :: 0 <= j && j < len(usars) ==> usars[j].USARTrigger.Flags & report.USAR_TRIG_TERMR != 0
@@ -459,7 +459,7 @@ package pfcp
 //@   ensures [frameok]      forall t *Sess :: old(allocated(t)) && old(sessOK(t)) && t != s && t.LocalID != s.LocalID ==> sessOK(t)
 //@   modifies s.FARIDs[_], s.QERIDs[_], s.BARIDs[_], s.PDRIDs[_], s.URRIDs[_].removed, s.URRIDs[_].refPdrNum, DP, chans(s.q)
 //@   reveal sessOK
-//@   serves C01 C05 C07 C12 C13 C11
+//@   serves C01 C05 C07 C12 C13 C11 C10
 //@   loop range(s.FARIDs):
 //@     modifies s.FARIDs[_], DP
 //@     invariant [inv]   sessOK(s)
@@ -1148,6 +1148,7 @@ package pfcp
 //@   requires s != nil && srvInv(s) && addr != nil
 //@   ensures [inv]   srvInv(s)
 //@   ensures [dead]  !old(live(s.lnode, lSeid)) ==> err != nil && s.txTrans == old(s.txTrans) && len(s.txTrans) == old(len(s.txTrans)) && s.txSeq == old(s.txSeq)
+//@   ensures [sent]  old(live(s.lnode, lSeid)) ==> trKey(addr, old(s.txSeq)) in s.txTrans
 //@   ensures [dp]    DP == old(DP) && CREATED == old(CREATED)
 //@   ensures [slots] forall id uint64 :: (live(s.lnode, id) == old(live(s.lnode, id))) && (old(live(s.lnode, id)) ==> s.lnode.sess[id-1] == old(s.lnode.sess[id-1]))
 //@   modifies *
